@@ -165,10 +165,26 @@ def shape_of(world, t):
     return (r[5] - r[3] + 1, r[6] - r[4] + 1)
 
 
+def typed_array(rng, h, w):
+    """A numpy array of one dtype as an override value (callers do pass
+    those): {'nd': dtype, 'v': nested list}."""
+    dt = rng.pick(['bool', 'int64', 'float64'])
+    if dt == 'bool':
+        v = [[rng.chance(.5) for _ in range(w)] for _ in range(h)]
+    elif dt == 'int64':
+        v = [[rng.randrange(-3, 9) for _ in range(w)] for _ in range(h)]
+    else:
+        v = [[rng.randrange(-8, 40) / 8.0 for _ in range(w)]
+             for _ in range(h)]
+    return {'nd': dt, 'v': v}
+
+
 def regen_value(rng, world, t):
     h, w = shape_of(world, t)
     if (h, w) == (1, 1):
         return gen_value(rng)
+    if rng.chance(.15):
+        return typed_array(rng, h, w)
     return [[gen_value(rng) for _ in range(w)] for _ in range(h)]
 
 
@@ -178,6 +194,8 @@ def gen_inputs(rng, world, n, blanks=False):
         h, w = shape_of(world, t)
         if (h, w) == (1, 1):
             v = gen_value(rng)
+        elif rng.chance(.25):
+            v = typed_array(rng, h, w)
         else:
             v = [[gen_value(rng) for _ in range(w)] for _ in range(h)]
         ins.append([t, v])
@@ -260,8 +278,12 @@ def generate(seed, tier):
         p_cross=.4, p_text=sw.pick([0, .06]), p_bool=sw.pick([0, .05]),
         p_err=sw.pick([0, .05]), depth=sw.pick([1, 2, 2]), p_alias=.25, p_arrlit=.06,
         w_if=sw.pick([0, 2]), w_iferror=sw.pick([0, 1]),
+        w_concat=sw.pick([0, 1]), w_istype=sw.pick([0, .7]),
     )
     world = gen_world(rng, prof)
+    if sw.chance(.35):
+        from ..world import add_named_block
+        add_named_block(Rng(seed, 'namedblock'), world)
     add_cover_of_array(Rng(seed, 'cover'), world)
     frng = Rng(seed, 'fault')
     # SIMFAULT wrappers around some formulas
@@ -306,6 +328,9 @@ def generate(seed, tier):
 def to_lib(v):
     """Trace value -> library value."""
     from formulas.tokens.operand import Error
+    if isinstance(v, dict) and 'nd' in v:
+        import numpy as np
+        return np.array(v['v'], dtype=v['nd'])
     if isinstance(v, dict):
         return Error.errors[v['e']]
     if isinstance(v, list):
@@ -454,6 +479,8 @@ def pins_of(world, ins):
             r = world['names'][t[1]]['t'] if t[0] == 'name' else t[1]
             b, s, r1, c1, r2, c2 = r[1:]
         val = to_lib(v)
+        if hasattr(val, 'tolist'):       # typed numpy array
+            val = val.tolist()
         if not isinstance(val, list):
             val = [[val]]
         for i in range(r1, r2 + 1):
@@ -751,6 +778,8 @@ def alias_inputs(world, ins):
             continue
         any_alias = True
         r = world['names'][t[1]]['t'] if t[0] == 'name' else t[1]
+        if isinstance(v, dict) and 'nd' in v:
+            v = v['v']      # the same values, cell by cell, as Python scalars
         val = v if isinstance(v, list) else [[v]]
         for p in rect_cells(r):
             o = idx.occupant(p)
@@ -797,6 +826,9 @@ def signature(trace, v):
         return None
     from ..cyc import Graph
     world = trace['world']
+    sig6 = chained_name_value_signature(trace, v)
+    if sig6:
+        return sig6
     cov = covered_formula_cells(world, trace['observed']['inputs'])
     if not cov:
         return None
@@ -814,6 +846,41 @@ def signature(trace, v):
     else:
         ok = all(c in cov or (G.reach(c) & cov) for c in cells)
     return 'C07.exact/formula-cell-overridden-through-range' if ok else None
+
+
+def chained_name_value_signature(trace, v):
+    """F-C07-6: a CHAINED defined name (NAME_F := NAME_E := A5:A7) carries no
+    range filter, so a value supplied through it stays a plain array: an
+    aggregate that reads the name directly treats logicals / text in it as
+    directly typed arguments (TRUE counts as 1) instead of as cell contents."""
+    from ..cyc import Graph
+    world = trace['world']
+
+    def odd(val):
+        if isinstance(val, dict) and 'nd' in val:
+            return odd(val['v'])
+        if isinstance(val, list):
+            return any(odd(x) for x in val)
+        return isinstance(val, (bool, str))
+    names = [t[1] for t, val in trace['observed']['inputs']
+             if t[0] == 'name' and odd(val) and
+             world['names'][t[1]].get('alias') is not None]
+    if not names:
+        return None
+    users = set()
+    for i, c in enumerate(world['cells']):
+        if 'f' in c and any(x[0] == 'nm' and x[1] in names
+                            for x in walk(c['f'])):
+            users.add(i)
+    cells = v.get('cells')
+    if cells is None:
+        cells = [v['cell']] if isinstance(v.get('cell'), int) else []
+    if not cells or not users:
+        return None
+    G = Graph(world)
+    if all(G.reach(c) & users for c in cells):
+        return 'C07.exact/logical-through-chained-name'
+    return None
 
 
 def stale_solution_written(trace):
